@@ -170,8 +170,8 @@ def run(prog: Program, rep: Report, tier: str = "quick") -> None:
     game.add_instances(rep, c12.closed_form_job, [(i, tier, "R8.4", ("predict_win", "predict_rank", "predict_draw")) for i in range(n)], "R8.4", 16 * n, counterpart_only=True)
     game.add_instances(rep, c01.closed_form_job, [(i, tier, "R8.5") for i in range(n)], "R8.5", 28 * n, counterpart_only=True)
     rep.arbitrate({"R8.2"}, "R8.4", "the predictions are the closed forms (bounded functions of the inputs)", pred=lambda i: "predict_" in i.construct or "predict_" in i.function)
-    rep.arbitrate({"R8.2"}, "R8.5", "the stored ratings are the closed forms", pred=lambda i: "stored" in i.construct)
+    rep.arbitrate({"R8.2"}, "R8.5", "the stored ratings are the closed forms", pred=lambda i: "stored" in i.construct, lenient={"R8.2"})
     rep.arbitrate({"R8.1"}, "R8.5", "the stored ratings are the closed forms (their divisors are sums that contain a positive term)",
-                  pred=lambda i: i.construct.startswith("div") and "divisor range [0, " in i.message and "predict_" not in i.message and not i.module.endswith(".common"))
+                  pred=lambda i: i.construct.startswith("div") and "divisor range [0, " in i.message and "predict_" not in i.message and not i.module.endswith(".common"), lenient={"R8.1"})
     rep.arbitrate({"R8.1"}, "R8.3", "valid games return normally",
                   pred=lambda i: " returns normally (" in i.construct and _re.search(r"may raise (IndexError|KeyError|AttributeError|TypeError|StopIteration|AssertionError)", i.message) is not None)
